@@ -911,6 +911,262 @@ def layout_job(cases):
     return out
 
 
+# --- round-3 stream (worker) --------------------------------------------------------------------
+
+def r3_build_top(case, env):
+    """the shape object: a Struct/Union class declaring the case's field defaults, or the plain layout"""
+    from amaranth.lib import data
+    l = case["layout"]
+    if not case["defaults"]:
+        return env.layout(l)
+    members = {n: env.shape(fs) for n, fs in l[1]}
+    descr = dict(l[1])
+    ns = {"__annotations__": dict(members)}
+    for n, dinit in case["defaults"]:
+        ns[n] = build_init(dinit, members[n], None, descr[n], env)
+    base = data.Struct if l[0] == "struct" else data.Union
+    return type(base)("R3", (base,), ns)
+
+
+def r3_observe(case):
+    import warnings
+    warnings.simplefilter("ignore")
+    from amaranth.hdl import Signal, Module, Value, ClockDomain, Const as HConst
+    from amaranth.lib import data
+    from amaranth.lib.memory import Memory
+    from amaranth.sim import Simulator, Period
+    l, enums = case["layout"], case["enums"]
+    env = Env(enums)
+    obs = {}
+    try:
+        obj = r3_build_top(case, env)
+        lay = data.Layout.cast(obj)
+        keys = [k for k, _f in lay]
+    except Exception as e:
+        obs["build"] = ("error", errkind(e), traceback.format_exc()[-300:])
+        return obs
+    obs["build"] = ("ok",)
+    obs["keys"] = keys
+    size = lay.size
+    m = Module()
+    m.domains.sync = cd = ClockDomain("sync")
+    m.d.sync += Signal(name="dummy").eq(1)
+    watched = []                     # (signal or view, has fields)
+
+    def watch(s, is_view):
+        watched.append((s, is_view))
+        m.d.sync += Value.cast(s).eq(Value.cast(s))
+        return len(watched) - 1
+    # --- originals and copies
+    pyinits, origs = [], []
+    for init in case["origs"]:
+        try:
+            pyinits.append(("ok", build_init(init, obj, None, l, env)))
+        except Exception as e:
+            pyinits.append(("harness-error", errkind(e), traceback.format_exc()[-300:]))
+    for p in pyinits:
+        if p[0] != "ok":
+            origs.append(p)
+            continue
+        try:
+            s = Signal(obj, name="orig", init=p[1])
+            origs.append(("ok", Value.cast(s).init, watch(s, True), s))
+        except Exception as e:
+            origs.append(("error", errkind(e), repr(e)[:120]))
+    likes = []
+    for o, vs in zip(origs, case["likes"]):
+        row = []
+        for v in vs:
+            if o[0] != "ok":
+                row.append(("skipped",))
+                continue
+            s = o[3]
+            try:
+                is_view = True
+                if v[0] == "plain":
+                    c = Signal.like(s)
+                elif v[0] == "name":
+                    c = Signal.like(s, name="cpy")
+                elif v[0] == "suffix":
+                    c = Signal.like(s, name_suffix="_sfx")
+                elif v[0] == "reset_less":
+                    c = Signal.like(s, reset_less=True)
+                elif v[0] == "attrs":
+                    c = Signal.like(s, attrs={"keep": 1}, name="cpy")
+                elif v[0] == "init":
+                    if pyinits[v[1]][0] != "ok":
+                        row.append(("skipped",))
+                        continue
+                    c = Signal.like(s, init=pyinits[v[1]][1])
+                elif v[0] == "cast":
+                    c = Signal.like(Value.cast(s))
+                    is_view = False
+                else:
+                    c = Signal.like(Signal.like(s, name="mid"))
+                cv = Value.cast(c)
+                row.append(("ok", cv.init, watch(c, is_view), cv.name, cv.reset_less, type(c) is type(s) if is_view else isinstance(c, Signal),
+                            (len(cv), cv.shape().signed)))
+            except Exception as e:
+                row.append(("error", errkind(e), repr(e)[:160]))
+        likes.append(row)
+    obs["origs"] = [o[:3] for o in origs]
+    obs["likes"] = likes
+    # --- signals shaped by the enumerations of the case
+    esigs = []
+    for eid, v in case["enum_sigs"]:
+        try:
+            cls = env.enum_class(eid)
+            s = Signal(cls, name="en", init=cls(v))
+            c = Signal.like(s)
+            c2 = Signal.like(s, name="en2")
+            esigs.append(("ok", [Value.cast(x).init for x in (s, c, c2)], [s, c, c2]))
+            for x in (s, c, c2):
+                m.d.sync += Value.cast(x).eq(Value.cast(x))
+        except Exception as e:
+            esigs.append(("error", errkind(e), repr(e)[:160]))
+    # --- scripts
+    sig = Signal(obj, name="sig")
+    req = Signal(name="req")
+    cmd = {}
+
+    def field_value(shape, fs, v):
+        if fs[0] == "enum":
+            return env.enum_class(fs[1])(v)
+        if fs[0] == "p":
+            return v
+        return shape.from_bits(v)
+
+    def script_sets(s):
+        if s["what"] == "slice":
+            arr = follow(sig, s["path"])
+            target = arr[slice(*s["key"])]
+            eshape = arr.shape().elem_shape
+            return [(target, [field_value(eshape, fs, v) for _p, fs, v in s["steps"]])]
+        out = []
+        for p, fs, v in s["steps"]:
+            fld = follow(sig, p)
+            out.append((fld, field_value(fld.shape() if fs[0] not in ("p", "enum") else None, fs, v)))
+        return out
+
+    async def writer(ctx):
+        async for _ in ctx.changed(req):
+            cmd["result"] = ("ok",)
+            for target, value in cmd.get("sets", ()):
+                try:
+                    ctx.set(target, value)
+                except Exception as e:
+                    cmd["result"] = ("error", errkind(e), repr(e)[:120])
+                    break
+    # --- memories
+    mems = []
+    for md in case["mems"]:
+        try:
+            rows = [build_init(r, obj, None, l, env) for r in md["rows"]]
+        except Exception as e:
+            mems.append(("harness-error", errkind(e), traceback.format_exc()[-300:]))
+            continue
+        try:
+            if md["via_setter"]:
+                mem = Memory(shape=obj, depth=md["depth"], init=[None] * md["depth"])
+                mem.init = rows
+            else:
+                mem = Memory(shape=obj, depth=md["depth"], init=rows)
+            rd = mem.read_port(domain="comb")
+            m.submodules[f"mem{len(mems)}"] = mem
+            held = []
+            for i in range(md["depth"]):
+                x = mem.init[i]
+                held.append("none" if x is None else "given")
+            raw = getattr(mem.init, "_raw", None)
+            mems.append(("ok", mem, rd, held, list(raw) if raw is not None else None))
+        except Exception as e:
+            mems.append(("error", errkind(e), repr(e)[:160]))
+    obs["mems"] = [mm[:1] + mm[3:] if mm[0] == "ok" else mm for mm in mems]
+    res = {"time0": [], "after_reset": [], "enum0": [], "scripts": [], "memrows": []}
+    mask = (1 << size) - 1
+
+    async def tb(ctx):
+        for s, is_view in watched:
+            try:
+                whole = ctx.get(Value.cast(s))
+                res["time0"].append(("ok", whole, [attempt(lambda k=k: ctx.get(s[k])) for k in keys] if is_view else None))
+            except Exception as e:
+                res["time0"].append(("error", errkind(e), repr(e)[:120]))
+        for es in esigs:
+            res["enum0"].append([attempt(lambda x=x: ctx.get(x)) for x in es[2]] if es[0] == "ok" else None)
+        for mm in mems:
+            if mm[0] != "ok":
+                res["memrows"].append(None)
+                continue
+            _ok, mem, rd, _held, _raw = mm
+            rows = []
+            for i in range(mem.depth):
+                try:
+                    row = mem.data[i]
+                    whole = ctx.get(Value.cast(row))
+                    lifted = attempt(lambda: ctx.get(row))
+                    fields = [attempt(lambda k=k: ctx.get(row[k])) for k in keys]
+                    ctx.set(rd.addr, i)
+                    port = ctx.get(Value.cast(rd.data))
+                    pfields = [attempt(lambda k=k: ctx.get(rd.data[k])) for k in keys]
+                    rows.append(("ok", whole, lifted, fields, port, pfields))
+                except Exception as e:
+                    rows.append(("error", errkind(e), repr(e)[:120]))
+            res["memrows"].append(rows)
+        # scripts: from the testbench (slice: ONE ctx.set; fields: one ctx.set per field, a delta cycle after each) and
+        # from a process (all ctx.set calls before the next delta cycle)
+        for s in case["scripts"]:
+            r = {}
+            for how in ("tb", "proc"):
+                try:
+                    sets = script_sets(s)
+                    ctx.set(Value.cast(sig), s["raw"])
+                    if how == "tb":
+                        for target, value in sets:
+                            ctx.set(target, value)
+                    else:
+                        cmd.clear()
+                        cmd["sets"] = sets
+                        ctx.set(req, 1 - ctx.get(req))
+                        if cmd.get("result", ("error", "other:not-run", ""))[0] != "ok":
+                            r[how] = cmd.get("result", ("error", "other:not-run", ""))
+                            continue
+                    r[how] = ("ok", ctx.get(Value.cast(sig)))
+                except Exception as e:
+                    r[how] = ("error", errkind(e), repr(e)[:160])
+            res["scripts"].append(r)
+        # reset: every watched register returns to its initial value (a reset-less one keeps what it holds)
+        for s, _v in watched:
+            ctx.set(Value.cast(s), case["scramble"] & mask)
+        ctx.set(cd.rst, 1)
+        await ctx.tick()
+        ctx.set(cd.rst, 0)
+        for s, _v in watched:
+            res["after_reset"].append(ctx.get(Value.cast(s)))
+    try:
+        sim = Simulator(m)
+        sim.add_clock(Period(MHz=1))
+        sim.add_process(writer)
+        sim.add_testbench(tb)
+        sim.run()
+        obs["run"] = ("ok",)
+    except Exception as e:
+        obs["run"] = ("error", errkind(e), traceback.format_exc()[-400:])
+    obs.update(res)
+    obs["esigs"] = [es[:2] if es[0] == "ok" else es for es in esigs]
+    return obs
+
+
+def r3_job(cases):
+    out = []
+    for case in cases:
+        try:
+            out.append(r3_observe(case))
+        except Exception as e:
+            out.append({"crash": (errkind(e), traceback.format_exc()[-600:])})
+    return out
+
+
 # --- enumerations and flags (worker) ------------------------------------------------------------
 
 def enum_job(jobs):
@@ -1269,6 +1525,210 @@ def seq_requests2(sc, resps):
     bits = [seq_expected(r)[1] for r in resps[1:]]
     bits = [b[1] for b in bits if b[0] == "ok"]
     return [f"(read {L} " + " ".join(str(b) for b in bits) + ")"] if bits else []
+
+
+# ------------------------------------------------------------------------------------------------
+# round-3 stream: copies of signals (Signal.like), several partial writes to one signal before the next delta cycle
+# (one ctx.set on a strided slice of an array view; a process writing a record field by field), memories whose rows
+# have a layout shape (empty / partial / full initialiser). Generator side.
+
+def zero_value(rng, fs, enums):
+    """an initialiser of a field whose bits are all zero (when the field's shape has such a value)"""
+    if fs[0] == "p":
+        return ("int", 0 if rng.random() < 0.8 else (1 << fs[1]), "int")
+    if fs[0] == "enum":
+        e = enums[fs[1]]
+        vals = valid_values(e)
+        return ("int", 0 if (enum_valid(e, 0) or not vals) else rng.choice(vals), rng.choice(["member", "int"]))
+    return ("map", (), False) if rng.random() < 0.6 else ("bits", 0)
+
+
+def drop_unknown_keys(init):
+    if init[0] != "map":
+        return init
+    return ("map", tuple((k, v) for k, v in init[1] if k != "nosuch"), init[2])
+
+
+def zero_init(rng, l, defaults, enums):
+    """an initialiser that names every field with a declared default (and some others) with an all-zero value"""
+    kind = l[0]
+    fl = fields_of(l, enums)
+    if not fl:
+        return ("map", (), False)
+    if kind == "union":
+        if rng.random() < 0.3:
+            return ("bits", 0)
+        key, fs, _o, _w = rng.choice(fl)
+        return ("map", ((key, zero_value(rng, fs, enums)),), False)
+    named = {k for k, _v in defaults}
+    chosen = [(key, fs) for key, fs, _o, _w in fl if key in named or rng.random() < 0.3]
+    rng.shuffle(chosen)
+    return ("map", tuple((key, zero_value(rng, fs, enums)) for key, fs in chosen), False)
+
+
+LIKE_VARIANTS = ["name", "suffix", "reset_less", "init", "cast", "twice", "attrs"]
+
+
+def make_r3_case(rng, entry=None):
+    if entry is not None:
+        l, enums, defaults = entry["layout"], list(entry["enums"]), tuple(entry.get("defaults", ()))
+    elif rng.random() < 0.55:
+        sc = make_seq_case(rng)
+        l, enums, defaults = sc["layout"], sc["enums"], sc["defaults"]
+    elif rng.random() < 0.4:
+        enums = []                            # an array long enough for strided slices that select several elements
+        for _ in range(40):
+            enums.clear()
+            l = ("array", gen_fs(rng, rng.choice([0, 0, 1]), enums, None), rng.randint(3, 9))
+            if 0 < layout_size(l, enums) <= 64:
+                break
+        defaults = ()
+    else:
+        enums = []
+        for _ in range(40):
+            enums.clear()
+            l = gen_layout(rng, rng.choice([1, 2, 2, 3]) - 1, enums, None)
+            if layout_size(l, enums) <= 64:
+                break
+        defaults = ()
+    kind = l[0]
+    size = layout_size(l, enums)
+    paths = all_paths(l, enums)
+
+    def rand_init():
+        if kind in ("struct", "union") and l[2]:
+            return drop_unknown_keys(gen_seq_init(rng, kind, l[1], enums))
+        return gen_init(rng, l, enums, 0.0)
+    # --- originals and their copies
+    origs = [zero_init(rng, l, defaults, enums)]
+    if entry is not None:
+        origs += list(entry.get("origs", ()))
+    for _ in range(rng.randint(2, 4)):
+        r = rng.random()
+        origs.append(zero_init(rng, l, defaults, enums) if r < 0.3 else (("none",) if r < 0.4 else rand_init()))
+    likes = []
+    for i in range(len(origs)):
+        vs = [("plain",)]
+        for v in rng.sample(LIKE_VARIANTS, 2):
+            vs.append((v, rng.randrange(len(origs))) if v == "init" else (v,))
+        likes.append(vs)
+    enum_sigs = []
+    for eid in range(min(len(enums), 2)):
+        vals = valid_values(enums[eid])
+        if vals:
+            enum_sigs.append((eid, 0 if (0 in vals and rng.random() < 0.5) else rng.choice(vals)))
+    # --- several partial writes to the signal before the next delta cycle
+    scripts = []
+    if size > 0:
+        arrays = [((), l)] if kind == "array" else []
+        arrays += [(tuple(p), fs) for p, fs in paths if fs[0] == "array"]
+        arrays = [a for a in arrays if a[1][2] >= 2]
+        rng.shuffle(arrays)
+        arrays.sort(key=lambda a: a[1][2] < 3)
+        keys_todo = list(entry.get("slice_keys", ())) if entry is not None else []
+        for path, arr in arrays[:2]:
+            n, elem = arr[2], arr[1]
+            keys = [k for k in keys_todo]
+            for _ in range(40):
+                if len(keys) >= max(3, len(keys_todo)):
+                    break
+                k = gen_slice_key(rng, n)
+                if k[2] in (None, 1, -1) and rng.random() < 0.7:
+                    continue
+                if len(range(n)[slice(*k)]) < 2 and rng.random() < 0.8:
+                    continue
+                if slice_class(k, n) != "unit_step_reversed_bounds" and k not in keys:
+                    keys.append(k)
+            for k in keys:
+                idxs = list(range(n))[slice(*k)]
+                scripts.append({"what": "slice", "path": path, "key": k, "n": n, "raw": rng.getrandbits(size),
+                                "steps": [(path + (e,), elem, random_field_value(rng, elem, enums)) for e in idxs]})
+        for _ in range(3):
+            if not paths:
+                break
+            cnt = rng.randint(2, 4)
+            picks = [rng.choice(paths) for _c in range(cnt)] if rng.random() < 0.3 else rng.sample(paths, min(cnt, len(paths)))
+            scripts.append({"what": "fields", "raw": rng.getrandbits(size),
+                            "steps": [(tuple(p), fs, random_field_value(rng, fs, enums)) for p, fs in picks]})
+    # --- memories with rows of this shape
+    mems = []
+    if size > 0:
+        for _ in range(rng.randint(1, 2)):
+            depth = rng.randint(1, 4)
+            r = rng.random()
+            k = 0 if r < 0.4 else (depth if r < 0.65 else rng.randint(0, depth))
+            mems.append({"depth": depth, "rows": [rand_init() if rng.random() < 0.8 else zero_init(rng, l, defaults, enums) for _r in range(k)],
+                         "via_setter": rng.random() < 0.3})
+    return {"layout": l, "enums": list(enums), "defaults": defaults, "size": size, "origs": origs, "likes": likes,
+            "enum_sigs": enum_sigs, "scripts": scripts, "mems": mems, "scramble": rng.getrandbits(size) if size else 0}
+
+
+R3_CORPUS = [
+    # a header class whose three defaults are overridden by zeros; strided writes to its lanes
+    {"layout": ("struct", (("kind", ("enum", 0)), ("tag", ("p", 4, False, "fn")), ("delta", ("p", 3, True, "fn")),
+                           ("lanes", ("array", ("p", 3, False, "fn"), 5))), True),
+     "enums": [("e", 2, False, (("IDLE", 0), ("RD", 1), ("WR", 2)))],
+     "defaults": (("kind", ("int", 2, "member")), ("tag", ("int", 9, "int")), ("delta", ("int", -3, "int"))),
+     "origs": [("map", (("kind", ("int", 0, "member")), ("tag", ("int", 0, "int")), ("delta", ("int", 0, "int"))), False)],
+     "slice_keys": [(None, None, 2), (3, 0, -1), (None, None, -2), (1, None, 3)]},
+    {"layout": ("array", ("p", 4, False, "fn"), 5), "enums": [], "slice_keys": [(None, None, 2), (3, 0, -1), (None, None, -3), (-1, None, -2)]},
+    {"layout": ("union", (("a", ("p", 4, False, "int")), ("b", ("p", 2, True, "fn"))), True), "enums": [],
+     "defaults": (("a", ("int", 9, "int")),), "origs": [("map", (("a", ("int", 0, "int")),), False), ("bits", 0)]},
+]
+
+
+def r3_merged(case, init):
+    return merged_init(case["layout"][0], case["defaults"], init)
+
+
+def r3_requests1(case):
+    """the constant of the class defaults, of every original's initialiser, of every memory row (missing rows: the defaults)"""
+    L = ser_layout(case["layout"], case["enums"])
+    reqs = [f"(const {L} {ser_init(r3_merged(case, ('none',)))})"]
+    reqs += [f"(const {L} {ser_init(r3_merged(case, init))})" for init in case["origs"]]
+    for mem in case["mems"]:
+        for i in range(mem["depth"]):
+            init = mem["rows"][i] if i < len(mem["rows"]) else ("none",)
+            reqs.append(f"(const {L} {ser_init(r3_merged(case, init))})")
+    for eid, v in case["enum_sigs"]:
+        reqs.append(f"(enum {ser_enum(case['enums'][eid])} const {v})")
+    return reqs
+
+
+def r3_requests2(case, resps):
+    L = ser_layout(case["layout"], case["enums"])
+    n = 1 + len(case["origs"]) + sum(m["depth"] for m in case["mems"])
+    bits = [seq_expected(r)[1] for r in resps[:n]]
+    bits = [b[1] for b in bits if b[0] == "ok"]
+    return [f"(read {L} " + " ".join(str(b) for b in bits) + ")"] if bits else []
+
+
+def r3_chain(chk, cases):
+    """the bits after every script: each step is one field write of the Lean model / Spec applied to the bits the previous
+    step left (every element write changes only its bits, all of them land); one driver round per step"""
+    cur = {}
+    for ci, c in enumerate(cases):
+        for si, s in enumerate(c["scripts"]):
+            cur[(ci, si)] = (s["raw"], s["raw"])
+    k = 0
+    while True:
+        todo = [(ci, si) for (ci, si) in cur if k < len(cases[ci]["scripts"][si]["steps"])]
+        if not todo:
+            break
+        reqs = []
+        for ci, si in todo:
+            c = cases[ci]
+            path, _fs, v = c["scripts"][si]["steps"][k]
+            m_, s_ = cur[(ci, si)]
+            reqs.append(f"(write {ser_layout(c['layout'], c['enums'])} {ser_path(path)} ({m_} {v}) ({s_} {v}))")
+        resps = chk.driver.ask(reqs)
+        for (ci, si), q, r in zip(todo, reqs, resps):
+            if r.startswith("error"):
+                raise common.Infra(f"driver rejected a request: {q[:300]} -> {r}")
+            parts = r.split(" ; ")
+            cur[(ci, si)] = (int(common.kv(parts[1])["m"]), int(common.kv(parts[2])["sp"]))
+        k += 1
+    return cur
 
 
 # ------------------------------------------------------------------------------------------------
@@ -1790,6 +2250,212 @@ def judge_seq(chk, sc, obs, resps1, resps2):
         J.differ("simulation of the registers of a construction sequence", sc, obs["run"][1], "ok", "ok", dict(base_ex, detail=obs["run"][2]))
 
 
+def judge_r3(chk, case, obs, resps1, resps2, chain):
+    """copies made with Signal.like have the original's initial value (as a constant, at time 0, after a reset, field by
+    field); several partial writes before the next delta cycle all land; memory rows hold the constant of their
+    initialiser (the declared defaults for rows without one)"""
+    J = Judge(chk)
+    l, enums = case["layout"], case["enums"]
+    kind = l[0]
+    L = ser_layout(l, enums)
+    if "crash" in obs:
+        chk.not_shown("harness worker crashed", {"layout": repr(l), "crash": obs["crash"]})
+        return
+    base_ex = {"class_defaults": {k: ser_init(v) for k, v in case["defaults"]}, "class_kind": kind, "is_class": bool(kind in ("struct", "union") and l[2])}
+    chk.hist("r3_layout_kind", kind + (" class" if base_ex["is_class"] else "") + (" with defaults" if case["defaults"] else ""))
+    chk.distinct(("r3", L, repr(case["defaults"]), repr(case["origs"])), nontrivial=case["size"] > 0)
+    if obs["build"][0] != "ok":
+        chk.count(1)
+        J.differ("round-3 stream: construction of the shape", case, obs["build"][1], "ok", "ok", dict(base_ex, detail=obs["build"][2]))
+        return
+    n_rows = sum(md["depth"] for md in case["mems"])
+    n_layout = 1 + len(case["origs"]) + n_rows
+    exp = [seq_expected(r) for r in resps1[:n_layout]]
+    enum_rs = resps1[n_layout:]
+    reads = resps2[0].split(" ; ") if resps2 else []
+    rds, ri = [], 0
+    for (_m, spec) in exp:
+        if spec[0] == "ok":
+            rds.append(common.kv(reads[ri]))
+            ri += 1
+        else:
+            rds.append(None)
+    default_model, default_spec = exp[0]
+    default_nonzero = default_spec[0] == "ok" and default_spec[1] != 0
+    chk.hist("r3_class_default_bits", "non-zero" if default_nonzero else "zero")
+    fl = fields_of(l, enums)
+    run_ok = obs.get("run", ("",))[0] == "ok"
+    if not run_ok:
+        J.differ("round-3 stream: simulation", case, obs["run"][1], "ok", "ok", dict(base_ex, detail=obs["run"][2]))
+    mask = (1 << case["size"]) - 1
+
+    def fcls(got, want):
+        return [F12] if any(g != w and fs[0] == "enum" and enums[fs[1]][2] for g, w, (_k, fs, _o, _w) in zip(got, want, fl)) else []
+
+    def watched_checks(what, widx, model, spec, rd, ex, reset_less):
+        """time 0 and after a reset: the register holds `spec` (fields included)"""
+        if not run_ok:
+            return
+        t0 = obs["time0"][widx]
+        chk.count(1)
+        if t0[0] != "ok":
+            J.differ(f"{what}: value at time 0", case, "err:" + t0[1], model, spec, ex)
+            return
+        J.cmp(f"{what}: value at time 0", case, t0[1], model, spec, ex)
+        if t0[2] is not None and rd is not None:
+            sp = lifted_tokens(rd["sp"])
+            J.cmp(f"{what}: fields at time 0", case, list(t0[2]), lifted_tokens(rd["mv"]), sp, ex, fcls(t0[2], sp))
+        want = (case["scramble"] & mask) if reset_less else spec
+        wantm = (case["scramble"] & mask) if reset_less else model
+        J.cmp(f"{what}: value after a reset" + (" of a reset-less copy" if reset_less else ""), case, obs["after_reset"][widx], wantm, want,
+              dict(ex, scrambled_to=case["scramble"] & mask))
+    # --- originals and their copies
+    for i, (init, o, vs, lrow) in enumerate(zip(case["origs"], obs["origs"], case["likes"], obs["likes"])):
+        model, spec = exp[1 + i]
+        merged = r3_merged(case, init)
+        ex = dict(base_ex, init=ser_init(init), expected_initialiser=ser_init(merged))
+        chk.count(1)
+        if o[0] == "harness-error":
+            chk.not_shown("harness could not build an initialiser", {"layout": L, "init": ser_init(init), "detail": o[2]})
+            continue
+        impl = ("ok", o[1]) if o[0] == "ok" else ("err", o[1])
+        model_e, spec_e = (model, spec) if model[0] == "ok" else (("err", "TypeError"),) * 2
+        cls = []
+        if impl == ("err", "TypeError") and has_signed_enum_field(l, enums):
+            cls.append(F12)
+        if impl == ("err", "TypeError") and bare_union_gets_bits(l, merged):
+            cls.append(F11)
+        if not J.cmp("original of a copy: Signal(S, init=init).init", case, impl, model_e, spec_e, ex, cls) or o[0] != "ok" or spec[0] != "ok":
+            continue
+        zero_over_defaults = default_nonzero and spec[1] == 0
+        chk.hist("r3_original_init_bits", "zero, class defaults non-zero" if zero_over_defaults else
+                 ("zero" if spec[1] == 0 else ("the class defaults" if (default_nonzero and spec[1] == default_spec[1]) else "non-zero")))
+        watched_checks("original of a copy", o[2], model[1], spec[1], rds[1 + i], ex, False)
+        for v, c in zip(vs, lrow):
+            if c[0] == "skipped":
+                continue
+            vname = {"plain": "Signal.like(sig)", "name": "Signal.like(sig, name=...)", "suffix": "Signal.like(sig, name_suffix=...)",
+                     "reset_less": "Signal.like(sig, reset_less=True)", "attrs": "Signal.like(sig, attrs=..., name=...)",
+                     "init": "Signal.like(sig, init=other)", "cast": "Signal.like(Value.cast(sig))", "twice": "Signal.like(Signal.like(sig))"}[v[0]]
+            chk.count(1)
+            chk.hist("r3_like_variant", vname)
+            if zero_over_defaults and v[0] != "init":
+                chk.hist("r3_like_of_zero_init_over_nonzero_defaults", vname)
+            em, es, erd = model, spec, rds[1 + i]
+            if v[0] == "init" and case["origs"][v[1]] != ("none",):         # init=None: no override, the original's value
+                em, es, erd = exp[1 + v[1]][0], exp[1 + v[1]][1], rds[1 + v[1]]
+                if es[0] != "ok":
+                    continue
+            exv = dict(ex, copy=vname, original_init_bits=spec[1])
+            if v[0] == "init":
+                exv["init_override"] = ser_init(case["origs"][v[1]])
+            if c[0] != "ok":
+                cls = [F11] if (c[1] == "TypeError" and kind == "union" and not l[2]) else []
+                J.differ(f"copy of a signal: {vname} raises", case, "err:" + c[1], "ok", "ok", dict(exv, detail=c[2]), cls)
+                continue
+            _ok, cinit, widx, cname, crl, same_type, cshape = c
+            J.cmp(f"copy of a signal: {vname}.init", case, cinit, em[1], es[1], exv)
+            want_name = {"name": "cpy", "attrs": "cpy", "suffix": "orig_sfx"}.get(v[0])
+            if want_name is not None:
+                J.cmp(f"copy of a signal: {vname}.name", case, cname, want_name, want_name, exv)
+            J.cmp(f"copy of a signal: {vname} reset_less / kind of object / shape", case, (crl, same_type, tuple(cshape)),
+                  (v[0] == "reset_less", True, (case["size"], False)), (v[0] == "reset_less", True, (case["size"], False)), exv)
+            watched_checks(f"copy of a signal: {vname}", widx, em[1], es[1], erd if v[0] != "cast" else None, exv, v[0] == "reset_less")
+    # --- enumeration-shaped signals
+    for (eid, v), es, er, e0 in zip(case["enum_sigs"], obs["esigs"], enum_rs, obs["enum0"] if run_ok else [None] * len(case["enum_sigs"])):
+        chk.count(1)
+        mm = er.split(" ; ")[1].split(":")
+        ex = dict(base_ex, enum=ser_enum(enums[eid]), member=v)
+        chk.hist("r3_like_enum_signal", enums[eid][0] + (" signed" if enums[eid][2] else ""))
+        if mm[0] != "ok":
+            chk.not_shown("model refuses a member of a generated enumeration", ex)
+            continue
+        want = int(mm[1])
+        if es[0] != "ok":
+            J.differ("copy of an enumeration-shaped signal raises", case, "err:" + es[1], "ok", "ok", dict(ex, detail=es[2]))
+            continue
+        J.cmp("copy of an enumeration-shaped signal: .init of the original, Signal.like(sig), Signal.like(sig, name=...)", case,
+              list(es[1]), [want] * 3, [v] * 3, ex)
+        if e0 is not None:
+            tok = f"m{v}"
+            J.cmp("copy of an enumeration-shaped signal: ctx.get at time 0", case, list(e0), [tok] * 3, [tok] * 3, ex)
+    # --- scripts
+    if run_ok:
+        for si, (s, r) in enumerate(zip(case["scripts"], obs["scripts"])):
+            m_, s_ = chain[si]
+            steps = [(list(p), v) for p, _fs, v in s["steps"]]
+            if s["what"] == "slice":
+                n, key = s["n"], s["key"]
+                klass = slice_class(key, n)
+                chk.hist("r3_slice_write_class", klass)
+                chk.hist("r3_slice_write_step", key[2])
+                chk.hist("r3_slice_write_open_ends", (key[0] is None) + (key[1] is None))
+                chk.hist("r3_slice_write_selected_elements", len(steps))
+                chk.hist("r3_slice_write_elem_kind", s["steps"][0][1][0] if s["steps"] else "-")
+                chk.distinct(("r3-slice", L, s["path"], key), nontrivial=len(steps) >= 2)
+                what = f"strided slice write: ctx.set(view{list(s['path'])}[{fmt_slice(key)}], values)"
+            else:
+                chk.hist("r3_field_script_length", len(steps))
+                chk.hist("r3_field_script_repeats_or_overlaps", len({tuple(p) for p, _v in steps}) != len(steps) or kind in ("union", "flex"))
+                chk.distinct(("r3-fields", L, repr(steps)), nontrivial=len(steps) >= 2)
+                what = "field by field write: ctx.set(view.f, v) for several fields"
+            ex = dict(base_ex, raw=s["raw"], element_writes=steps, writes=len(steps))
+            sub_bare_union = any(fs[0] == "union" and not fs[2] for _p, fs, _v in s["steps"])
+            for how, hname in (("tb", "from a testbench"), ("proc", "from a process (no delta cycle in between)")):
+                chk.count(1)
+                chk.hist("r3_script_runs", ("slice " if s["what"] == "slice" else "fields ") + hname.split(" (")[0])
+                t = r.get(how, ("error", "other:missing", ""))
+                impl = t[1] if t[0] == "ok" else "err:" + t[1]
+                cls = [F11] if (t[0] != "ok" and t[1] == "TypeError" and sub_bare_union) else []
+                J.cmp(f"{what} {hname}, then read the signal", case, impl, m_, s_, dict(ex, detail=t[2] if t[0] != "ok" else None), cls)
+    # --- memories
+    pos = 1 + len(case["origs"])
+    for mi, (md, mo) in enumerate(zip(case["mems"], obs["mems"])):
+        rows_exp = exp[pos:pos + md["depth"]]
+        rows_rd = rds[pos:pos + md["depth"]]
+        pos += md["depth"]
+        k = len(md["rows"])
+        filled = "empty" if k == 0 else ("full" if k == md["depth"] else "partial")
+        chk.hist("r3_mem_initialiser", filled + (" (init setter)" if md["via_setter"] else ""))
+        chk.hist("r3_mem_depth", md["depth"])
+        chk.hist("r3_mem_empty_init_nonzero_defaults", k == 0 and default_nonzero)
+        ex = dict(base_ex, depth=md["depth"], rows=[ser_init(x) for x in md["rows"]], via_init_setter=md["via_setter"])
+        if mo[0] == "harness-error":
+            chk.not_shown("harness could not build an initialiser", {"layout": L, "detail": mo[2]})
+            continue
+        if any(sp[0] != "ok" for _m, sp in rows_exp):
+            chk.hist("r3_mem_skipped_model_error", 1)
+            continue
+        chk.count(1)
+        if mo[0] != "ok":
+            J.differ("memory with rows of a layout shape: construction raises", case, "err:" + mo[1], "ok", "ok", dict(ex, detail=mo[2]))
+            continue
+        _ok, held, raw = mo
+        want_held = ["given" if (i < k and md["rows"][i] != ("none",)) else "none" for i in range(md["depth"])]
+        J.cmp("memory with rows of a layout shape: mem.init[i] is the given initialiser / None", case, held, want_held, want_held, ex)
+        if raw is not None:
+            chk.count(1)
+            J.cmp("memory with rows of a layout shape: bits of the rows of mem.init", case, raw, [m_[1] for m_, _s in rows_exp],
+                  [s_[1] for _m, s_ in rows_exp], ex)
+        if not run_ok or obs["memrows"][mi] is None:
+            continue
+        for i, (row, (m_, s_), rd) in enumerate(zip(obs["memrows"][mi], rows_exp, rows_rd)):
+            chk.count(1)
+            chk.hist("r3_mem_row", "initialised" if i < k else "default")
+            exr = dict(ex, row=i, row_init=ser_init(md["rows"][i]) if i < k else "none (the declared defaults)")
+            if row[0] != "ok":
+                J.differ("memory row of a layout shape: simulated read raises", case, "err:" + row[1], m_[1], s_[1], dict(exr, detail=row[2]))
+                continue
+            _ok2, whole, lifted, fields, port, pfields = row
+            J.cmp("memory row of a layout shape: ctx.get(Value.cast(mem.data[i]))", case, whole, m_[1], s_[1], exr)
+            J.cmp("memory row of a layout shape: ctx.get(mem.data[i])", case, lifted, f"c{m_[1]}", f"c{s_[1]}", exr)
+            J.cmp("memory row of a layout shape: data of a comb read port", case, port, m_[1], s_[1], exr)
+            if rd is not None:
+                sp = lifted_tokens(rd["sp"])
+                J.cmp("memory row of a layout shape: fields of ctx.get(mem.data[i][k])", case, list(fields), lifted_tokens(rd["mv"]), sp, exr, fcls(fields, sp))
+                J.cmp("memory row of a layout shape: fields of the read port's data", case, list(pfields), lifted_tokens(rd["mv"]), sp, exr, fcls(pfields, sp))
+
+
 def judge_enum(chk, job, r, resps):
     e, values, pairs, _ = job
     kind, w, s, members = e
@@ -1943,6 +2609,9 @@ def run(chk):
         cases.append(c)
     seq_cases = [dict(sc, size=layout_size(sc["layout"], sc["enums"])) for sc in SEQ_CORPUS]
     seq_cases += [make_seq_case(rng) for _ in range(n_seqs)]
+    # round-3 stream (generated last: the older streams of a seed stay what they were)
+    n_r3 = int(os.environ.get("VERIF_C15_R3", 170 if quick else 2200))
+    r3_cases = [make_r3_case(rng, entry) for entry in R3_CORPUS] + [make_r3_case(rng) for _ in range(n_r3)]
     # driver
     reqs, spans = [], []
     for c in cases:
@@ -1963,6 +2632,7 @@ def run(chk):
         fut_l = [ex.submit(layout_job, ch) for ch in chunks(cases, 12)]
         fut_e = [ex.submit(enum_job, ch) for ch in chunks(enum_jobs, 12)]
         fut_s = [ex.submit(seq_job, ch) for ch in chunks(seq_cases, 25)]
+        fut_r = [ex.submit(r3_job, ch) for ch in chunks(r3_cases, 8)]
         resps = chk.driver.ask(reqs)
         bad = [(q, r) for q, r in zip(reqs, resps) if r.startswith("error")]
         if bad:
@@ -1981,7 +2651,25 @@ def run(chk):
         bad = [(q, r) for q, r in zip(reqs2, resps2) if r.startswith("error")]
         if bad:
             raise common.Infra(f"driver rejected a request: {bad[0][0][:300]} -> {bad[0][1]}")
+        # round-3 stream: constants, then their fields, then one driver round per step of the write scripts
+        r3_reqs, r3_spans = [], []
+        for c in r3_cases:
+            r = r3_requests1(c)
+            r3_spans.append((len(r3_reqs), len(r3_reqs) + len(r)))
+            r3_reqs += r
+        r3_resps = chk.driver.ask(r3_reqs)
+        r3_reqs2, r3_spans2 = [], []
+        for c, (a, b) in zip(r3_cases, r3_spans):
+            r = r3_requests2(c, r3_resps[a:b])
+            r3_spans2.append((len(r3_reqs2), len(r3_reqs2) + len(r)))
+            r3_reqs2 += r
+        r3_resps2 = chk.driver.ask(r3_reqs2)
+        bad = [(q, r) for q, r in zip(r3_reqs + r3_reqs2, r3_resps + r3_resps2) if r.startswith("error")]
+        if bad:
+            raise common.Infra(f"driver rejected a request: {bad[0][0][:300]} -> {bad[0][1]}")
+        r3_chains = r3_chain(chk, r3_cases)
         obs = [o for f in fut_l for o in f.result()]
+        robs = [o for f in fut_r for o in f.result()]
         eobs = [o for f in fut_e for o in f.result()]
         sobs = [o for f in fut_s for o in f.result()]
     n_exh = 0
@@ -1993,6 +2681,14 @@ def run(chk):
         judge_enum(chk, j, o, resps[a:b])
     for sc, o, (a, b), (a2, b2) in zip(seq_cases, sobs, sspans, sspans2):
         judge_seq(chk, sc, o, resps[a:b], resps2[a2:b2])
+    for ci, (c, o, (a, b), (a2, b2)) in enumerate(zip(r3_cases, robs, r3_spans, r3_spans2)):
+        judge_r3(chk, c, o, r3_resps[a:b], r3_resps2[a2:b2], {si: r3_chains[(ci, si)] for si in range(len(c["scripts"]))})
+    for c in r3_cases[len(R3_CORPUS):len(R3_CORPUS) + 2]:
+        chk.sample({"round3_shape": ser_layout(c["layout"], c["enums"]), "defaults": {k: ser_init(v) for k, v in c["defaults"]},
+                    "originals": [ser_init(i) for i in c["origs"]], "copies": [[v[0] for v in vs] for vs in c["likes"]],
+                    "scripts": [(s["what"], fmt_slice(s["key"]) if s["what"] == "slice" else None, [(list(p), v) for p, _f, v in s["steps"]])
+                                for s in c["scripts"][:3]],
+                    "memories": [(md["depth"], len(md["rows"])) for md in c["mems"]]}, limit=12)
     for sc in seq_cases[len(SEQ_CORPUS):len(SEQ_CORPUS) + 2]:
         chk.sample({"class": ser_layout(sc["layout"], sc["enums"]), "defaults": {k: ser_init(v) for k, v in sc["defaults"]},
                     "calls": [(o, ser_init(x)) for o, x in sc["ops"]]}, limit=8)
@@ -2029,7 +2725,17 @@ def run(chk):
                        "Construction sequences: Struct/Union CLASSES declaring field defaults, built once, then 3-7 calls "
                        "(S.const(init) / Signal(S, init=init) / Signal(S)) on the same class object, each compared (bits, fields read back, "
                        "simulated reset value and fields) with Layout.const of the defaults overridden by exactly the fields this call names "
-                       "(distinct = class, defaults, calls; non-trivial = declares a default and some call leaves out a field named earlier)")
+                       "(distinct = class, defaults, calls; non-trivial = declares a default and some call leaves out a field named earlier). "
+                       "Round-3 stream: Struct/Union classes with field defaults (60%) and layouts of every kind; originals Signal(S, init=...) "
+                       "whose initialiser overrides every default with an all-zero value (at least one per shape), random ones and none; "
+                       "copies Signal.like(sig) plus two of name= / name_suffix= / reset_less= / attrs= / init=other / Value.cast(sig) / "
+                       "like(like(sig)): .init, name, reset_less, shape, value and fields at time 0, value after a reset, against Layout.const "
+                       "of the merged initialiser; enumeration-shaped signals and their copies; ONE ctx.set(view[slice], values) on strided "
+                       "slices of array views (steps +-2..+-5, negative, open ends) and 2-4 field writes to one signal, each from a testbench "
+                       "and from an add_process process (no delta cycle between the writes), against the chain of the model's single field "
+                       "writes; memories (lib.memory.Memory) whose rows have the shape, with an empty / partial / full initialiser (also "
+                       "through the init setter): mem.init, ctx.get(mem.data[i]) and its fields, a comb read port, against Layout.const of "
+                       "the row's initialiser (the declared defaults for missing rows)")
     chk.assumptions += [
         "Flag classes have unsigned shapes and every member value fits the declared shape (no truncation warning)",
         "Flag classes with multi-bit members over bits that have no single-bit member are exercised in the flag stream on member "
@@ -2042,4 +2748,7 @@ def run(chk):
         "(ValueError / IndexError) instead of selecting nothing: counted in distribution.slice_unit_step_reversed_bounds, not judged",
         "an array view is indexed with a signal only when its elements are wider than 0 bits (word_select rejects stride 0)",
         "negative initialisers of Flag classes (Python maps -1 to 'all flags') are not exercised",
+        "round-3 stream: initialisers are well-formed (no unknown keys); Signal.like(sig, init=None) means 'no override'; the bits of "
+        "the rows of mem.init are read from the private list MemoryData.Init._raw when it exists (what elaboration and the simulator "
+        "use), otherwise only through the simulator; memories are built for shapes wider than 0 bits",
     ]
